@@ -240,6 +240,10 @@ class _HDeform(SymHooks):
                 return 'face' if args[0] == 's0' else 'vertex'
             if is_base and nm == 'get_deformation':
                 self.calls.append((args[0], args[1], dict(kwargs)))
+                # the abstract family 'A' is the Hadamard along every axis but 'y', where it is the Y<->Z exchange:
+                # two requests that differ only in a keyword VALUE have different images
+                if args[1] == 'A' and kwargs.get('deformation_axis') == 'y':
+                    return dict(XY)
                 return dict(TABLES[args[1]])
         if isinstance(func, Ext) and func.name in ('types.MethodType',):
             f, o = args
@@ -380,6 +384,28 @@ def _r083(ctx: Ctx) -> None:
            f'got {v!r}, expected the image of the UNDEFORMED operators under the second table: {want!r}',
            key='StabilizerCode.deform|from-undeformed', facts=repr(v))
 
+    # (2b) the same name again with another keyword value / without the keyword: the LAST request decides
+    for label, second, table in (('other keyword value', {'deformation_axis': 'y'}, XY), ('keyword dropped', {}, HADAMARD),
+                                 ('same request', {'deformation_axis': 'x'}, HADAMARD)):
+        def s3(it, hooks, second=second):
+            o = new_code(it)
+            deform(it, o, 'A', deformation_axis='x')
+            get(it, o, 'get_stabilizer', 's0')
+            get(it, o, 'stabilizer_matrix')
+            deform(it, o, 'A', **second)
+            return {'stab': {s: get(it, o, 'get_stabilizer', s) for s in STABS},
+                    'lx': get(it, o, 'get_logicals_x'), 'lz': get(it, o, 'get_logicals_z'),
+                    'flags': (o.fields.get('is_deformed'), o.fields.get('deformation_name'),
+                              o.fields.get('deformation_kwargs'))}
+        v, hooks = scenario(f'again, {label}', s3)
+        want = {'stab': {s: _image(op, table) for s, op in STABS.items()},
+                'lx': [_image(op, table) for op in LOGX], 'lz': [_image(op, table) for op in LOGZ],
+                'flags': (True, 'A', dict(second))}
+        ctx.ob('R08.4', site, f'deform again with the same name ({label}): the result is that of the last request on the '
+                              f'undeformed code', v == want,
+               f'got {v!r}, expected the image of the UNDEFORMED operators under the table of the last request: {want!r}',
+               key=f'StabilizerCode.deform|again[{label}]', facts=repr(v))
+
     # (3) every cached property after (read; deform) equals the value on a freshly deformed object
     for prop, attr in sorted(cached.items()):
         def warm(it, hooks, prop=prop):
@@ -461,11 +487,21 @@ def _r086(ctx: Ctx) -> None:
     fn = r[1]
     site = site_of(mi, fn)
     p = Poly.var('p')
-    rx, ry, rz = Poly.var('r_x'), Poly.var('r_y'), Poly.var('r_z')
     tables = {'q0': HADAMARD, 'q1': XY, 'q2': IDENT}
     code = Obj(m.cls('StabilizerCode'), 'code')
     code.fields['n'] = 3
     code.fields['qubit_coordinates'] = ['q0', 'q1', 'q2']
+    a, b = Poly.var('r_a'), Poly.var('r_b')
+    # the generic direction and the three families with two equal rates (a comparison of two rates in the code is then
+    # decided the way it is decided for every member of the family)
+    families = (('generic direction', (Poly.var('r_x'), Poly.var('r_y'), Poly.var('r_z'))),
+                ('r_x = r_z', (a, b, a)), ('r_x = r_y', (a, a, b)), ('r_y = r_z', (a, b, b)))
+    for fam, (rx, ry, rz) in families:
+        _r086_family(ctx, m, ci, mi, fn, site, code, tables, p, fam, rx, ry, rz)
+
+
+def _r086_family(ctx, m, ci, mi, fn, site, code, tables, p, fam, rx, ry, rz) -> None:
+    sfx = '' if fam == 'generic direction' else f'[{fam}]'
 
     def run(name, kwargs):
         hooks = _HNoise(tables)
@@ -476,7 +512,7 @@ def _r086(ctx: Ctx) -> None:
             return it.call_closure(Closure(fn, mi, ci), [code, p], {}, fn, self_obj=em)
         outs = guard('R08.6', mi, fn)(lambda: it.explore(thunk))
         rets = [o for o in outs if o.kind == 'return']
-        ctx.need(len(rets) == 1, 'R08.6', site, f'expected one returning path, got {outs!r}')
+        ctx.need(len(rets) == 1, 'R08.6', site, f'{fam}: expected one returning path, got {outs!r}')
         return rets[0].value, hooks
 
     base = {'I': Poly.const(1) - p, 'X': rx * p, 'Y': ry * p, 'Z': rz * p}
@@ -491,27 +527,34 @@ def _r086(ctx: Ctx) -> None:
                 want = base[tables[q][P]]
                 if not (got[P][qi] == want):
                     ok = False
-                    detail = f'qubit {q} with table {tables[q]}: p_{P} = {got[P][qi]!r}, expected p_old[{tables[q][P]}] = {want!r}'
+                    detail = (f'{fam}: qubit {q} with table {tables[q]}: p_{P} = {got[P][qi]!r}, expected '
+                              f'p_old[{tables[q][P]}] = {want!r}')
             if not (got['I'][qi] == base['I']):
-                ok, detail = False, f'p_I of {q} is {got["I"][qi]!r}, expected 1 - p'
+                ok, detail = False, f'{fam}: p_I of {q} is {got["I"][qi]!r}, expected 1 - p'
     else:
-        detail = f'returned {v!r}'
-    ctx.ob('R08.6', site, 'deformed noise: p_new[P] = p_old[D(P)] per qubit with the code\'s own table', ok, detail,
-           key='PauliErrorModel.probability_distribution|deformed', facts={k: [repr(x) for x in xs] for k, xs in (got or {}).items()})
+        detail = f'{fam}: returned {v!r}'
+    ctx.ob('R08.6', site, f'deformed noise ({fam}): p_new[P] = p_old[D(P)] per qubit with the code\'s own table', ok, detail,
+           key='PauliErrorModel.probability_distribution|deformed' + sfx,
+           facts={k: [repr(x) for x in xs] for k, xs in (got or {}).items()})
     fw = (len(hooks.calls) == 3 and [c[0] for c in hooks.calls] == ['q0', 'q1', 'q2']
           and all(c[1] == 'A' and c[2] == {'deformation_axis': 'x'} for c in hooks.calls))
-    ctx.ob('R08.6', site, 'deformed noise: table asked for each qubit coordinate with the model\'s name and kwargs', fw,
-           f'get_deformation calls: {hooks.calls!r}', key='PauliErrorModel.probability_distribution|table-args',
-           facts=[repr(c) for c in hooks.calls])
+    if fam == 'generic direction':
+        ctx.ob('R08.6', site, 'deformed noise: table asked for each qubit coordinate with the model\'s name and kwargs', fw,
+               f'get_deformation calls: {hooks.calls!r}', key='PauliErrorModel.probability_distribution|table-args',
+               facts=[repr(c) for c in hooks.calls])
     v, hooks = run(None, None)
     ok = isinstance(v, tuple) and len(v) == 4 and all(isinstance(a, np.ndarray) for a in v) and not hooks.calls
     if ok:
         for P, arr in zip('IXYZ', v):
             if not all(x == base[P] for x in arr):
                 ok = False
-    ctx.ob('R08.6', site, 'undeformed noise: (p_I,p_X,p_Y,p_Z) = (1-p, r_x p, r_y p, r_z p), no table consulted', ok,
-           f'returned {v!r}', key='PauliErrorModel.probability_distribution|undeformed',
+    ctx.ob('R08.6', site, f'undeformed noise ({fam}): (p_I,p_X,p_Y,p_Z) = (1-p, r_x p, r_y p, r_z p), no table consulted', ok,
+           f'returned {v!r}', key='PauliErrorModel.probability_distribution|undeformed' + sfx,
            facts=[repr(list(a)) for a in v] if isinstance(v, tuple) else repr(v))
+
+
+DIRECTION_FAMILIES = (('generic direction', (0.5, 0.3, 0.2)), ('r_x = r_z', (0.3, 0.4, 0.3)),
+                      ('r_x = r_y', (0.3, 0.3, 0.4)), ('r_y = r_z', (0.2, 0.4, 0.4)))
 
 
 def weights_vs_distribution(ctx: Ctx, rule: str) -> None:
@@ -530,44 +573,116 @@ def weights_vs_distribution(ctx: Ctx, rule: str) -> None:
     code = Obj(m.cls('StabilizerCode'), 'code')
     code.fields['n'] = 3
     code.fields['qubit_coordinates'] = ['q0', 'q1', 'q2']
-    rx, ry, rz, p, eps = 0.5, 0.3, 0.2, 0.3, 1e-20
+    p, eps = 0.3, 1e-20
     site = site_of(rw[0].module, rw[1])
     class _HConcrete(_HNoise):
         def call(self, it, func, args, kwargs, node, env):
             if isinstance(func, Ext) and func.name == 'numpy.isclose':
                 return bool(np.isclose(*args, **kwargs))          # concrete numbers here: the constructor guard is decided
             return super().call(it, func, args, kwargs, node, env)
-    for label, name, kwargs in (('undeformed', None, None), ('deformation named, no keyword arguments', 'A', None),
-                                ('deformation named with an axis', 'A', {'deformation_axis': 'x'})):
-        hooks = _HConcrete(tables)
-        it = Interp(m, hooks)
+    # ... and directions on the faces and vertices of the simplex: a flip marginal that is exactly 0 (pure Z noise has no
+    # X flips) has the large finite weight -log(eps / (1 + eps)), not nan or inf
+    for fam, (rx, ry, rz) in DIRECTION_FAMILIES + (('r_y = 0', (0.6, 0.0, 0.4)), ('pure Z', (0.0, 0.0, 1.0)),
+                                                  ('pure X', (1.0, 0.0, 0.0))):
+        for label, name, kwargs in (('undeformed', None, None), ('deformation named, no keyword arguments', 'A', None),
+                                    ('deformation named with an axis', 'A', {'deformation_axis': 'x'})):
+            hooks = _HConcrete(tables)
+            it = Interp(m, hooks)
 
-        def thunk():
-            em = it.instantiate(ci, [rx, ry, rz, name, kwargs], {}, rd[1])
-            dist = it.call_closure(Closure(rd[1], rd[0].module, rd[0]), [code, p], {}, rd[1], self_obj=em)
-            w = it.call_closure(Closure(rw[1], rw[0].module, rw[0]), [code, p], {}, rw[1], self_obj=em)
-            return dist, w
-        outs = guard(rule, rw[0].module, rw[1])(lambda: it.explore(thunk))
-        rets = [o for o in outs if o.kind == 'return']
-        ctx.need(len(rets) == 1 and len(outs) == 1, rule, site, f'get_weights ({label}): paths {outs!r}')
-        dist, w = rets[0].value
-        bad = None
-        try:
-            pi_, px_, py_, pz_ = [np.asarray(a, dtype=float) for a in dist]
-            wx, wz = [np.asarray(a, dtype=float) for a in w]
-            for i in range(3):
-                for sec, got, flip in (('X', wx[i], px_[i] + py_[i]), ('Z', wz[i], pz_[i] + py_[i])):
-                    want = -math.log((flip + eps) / (1 - flip + eps))
-                    if abs(got - want) > 1e-9:
-                        bad = (f'qubit q{i} (table {tables["q%d" % i]}): weight for {sec} flips is {got:.6f}, the deformed '
-                               f'channel of that qubit has P({sec} flip) = {flip:.3f}, i.e. weight {want:.6f}')
+            def thunk():
+                em = it.instantiate(ci, [rx, ry, rz, name, kwargs], {}, rd[1])
+                dist = it.call_closure(Closure(rd[1], rd[0].module, rd[0]), [code, p], {}, rd[1], self_obj=em)
+                w = it.call_closure(Closure(rw[1], rw[0].module, rw[0]), [code, p], {}, rw[1], self_obj=em)
+                return dist, w
+            outs = guard(rule, rw[0].module, rw[1])(lambda: it.explore(thunk))
+            rets = [o for o in outs if o.kind == 'return']
+            ctx.need(len(rets) == 1 and len(outs) == 1, rule, site, f'get_weights ({fam}, {label}): paths {outs!r}')
+            dist, w = rets[0].value
+            bad = None
+            try:
+                pi_, px_, py_, pz_ = [np.asarray(a, dtype=float) for a in dist]
+                wx, wz = [np.asarray(a, dtype=float) for a in w]
+                for i in range(3):
+                    for sec, got, flip in (('X', wx[i], px_[i] + py_[i]), ('Z', wz[i], pz_[i] + py_[i])):
+                        want = -math.log((flip + eps) / (1 - flip + eps))
+                        if flip == 0 and (got == math.inf or (got == got and got > -math.log(1e-9))):
+                            # the exact log-likelihood weight of an impossible flip is +inf; how it is regularised is
+                            # the implementation's choice: anything heavier than a flip of probability 1e-9, never nan
+                            continue
+                        if not abs(got - want) <= 1e-9 * max(1.0, abs(want)):
+                            bad = (f'qubit q{i} (table {tables["q%d" % i]}): weight for {sec} flips is {got:.6f}, the deformed '
+                                   f'channel of that qubit has P({sec} flip) = {flip:.3f}, i.e. weight {want:.6f}')
+                            break
+                    if bad:
                         break
-                if bad:
-                    break
-        except (TypeError, ValueError):
-            raise AnalysisError(rule, site, f'get_weights ({label}): values not tracked ({dist!r}, {w!r})')
-        ctx.ob(rule, site, f'{rw[0].name}.get_weights = -log-odds of the per-qubit flip marginals of the same model ({label})',
-               bad is None, bad or '', key=f'get_weights|values[{label}]')
+            except (TypeError, ValueError):
+                raise AnalysisError(rule, site, f'get_weights ({label}): values not tracked ({dist!r}, {w!r})')
+            ctx.ob(rule, site, f'{rw[0].name}.get_weights = -log-odds of the per-qubit flip marginals of the same model ({fam}, {label})',
+                   bad is None, bad or '', key=f'get_weights|values[{label}]' + ('' if fam == 'generic direction' else f'[{fam}]'))
+
+
+def prob_vs_distribution(ctx: Ctx, rule: str) -> None:
+    """error_probability AS RESOLVED on the concrete noise class (an override included) against the per-qubit
+    distribution of the same object: P(e) = prod_i p_{e_i}[i] and log P(e) = sum_i log p_{e_i}[i], for all 64 Paulis of a
+    three-qubit abstract code (one Hadamard-deformed qubit, one XY-deformed, one untouched), directions with and without
+    two equal rates, deformed and undeformed."""
+    import itertools
+    import math
+    m = ctx.model
+    ci = m.cls('PauliErrorModel')
+    mi = ci.module
+    rd = ci.find_method('probability_distribution')
+    rp = ci.find_method('error_probability')
+    ctx.need(rd is not None and rp is not None, rule, site_of(mi, ci.node), 'probability_distribution / error_probability not found')
+    tables = {'q0': HADAMARD, 'q1': XY, 'q2': IDENT}
+    code = Obj(m.cls('StabilizerCode'), 'code')
+    code.fields['n'] = 3
+    code.fields['qubit_coordinates'] = ['q0', 'q1', 'q2']
+    p = 0.3
+    site = site_of(rp[0].module, rp[1])
+    bits = {'I': (0, 0), 'X': (1, 0), 'Y': (1, 1), 'Z': (0, 1)}
+
+    class _HConcrete(_HNoise):
+        def call(self, it, func, args, kwargs, node, env):
+            if isinstance(func, Ext) and func.name == 'numpy.isclose':
+                return bool(np.isclose(*args, **kwargs))
+            return super().call(it, func, args, kwargs, node, env)
+    n_eval = 0
+    for fam, (rx, ry, rz) in DIRECTION_FAMILIES:
+        for label, name, kwargs in (('undeformed', None, None), ('deformed', 'A', {'deformation_axis': 'x'})):
+            bad = None
+            for word in itertools.product('IXYZ', repeat=3):
+                err = np.array([bits[c][0] for c in word] + [bits[c][1] for c in word], dtype=np.uint8)
+                for log_output in (False, True):
+                    hooks = _HConcrete(tables)
+                    it = Interp(m, hooks)
+
+                    def thunk():
+                        em = it.instantiate(ci, [rx, ry, rz, name, kwargs], {}, rd[1])
+                        dist = it.call_closure(Closure(rd[1], rd[0].module, rd[0]), [code, p], {}, rd[1], self_obj=em)
+                        v = it.call_closure(Closure(rp[1], rp[0].module, rp[0]), [err, code, p, log_output], {}, rp[1],
+                                            self_obj=em)
+                        return dist, v
+                    outs = guard(rule, rp[0].module, rp[1])(lambda: it.explore(thunk))
+                    rets = [o for o in outs if o.kind == 'return']
+                    ctx.need(len(rets) == 1 and len(outs) == 1, rule, site,
+                             f'error_probability ({fam}, {label}, {"".join(word)}): paths {outs!r}')
+                    dist, v = rets[0].value
+                    n_eval += 1
+                    try:
+                        d = dict(zip('IXYZ', [np.asarray(a, dtype=float) for a in dist]))
+                        got = float(v)
+                    except (TypeError, ValueError):
+                        raise AnalysisError(rule, site, f'error_probability ({fam}, {label}): values not tracked ({dist!r}, {v!r})')
+                    want = math.prod(float(d[c][i]) for i, c in enumerate(word))
+                    if log_output:
+                        want = math.log(want)
+                    if bad is None and abs(got - want) > 1e-9 * max(1.0, abs(want)):
+                        bad = (f'{"log " if log_output else ""}P({"".join(word)}) = {got:.9g}; the per-qubit channel of the same model '
+                               f'(tables {[tables[q] for q in ("q0", "q1", "q2")] if name else "none"}) gives {want:.9g}')
+            ctx.ob(rule, site, f'{rp[0].name}.error_probability = product (sum of logs) of the per-qubit channel of the same '
+                               f'model ({fam}, {label})', bad is None, bad or '',
+                   key=f'error_probability|resolved[{fam}|{label}]', facts={'evaluations': 128})
 
 
 # ------------------------------------------------------------------- R08.8
@@ -602,7 +717,7 @@ def run(ctx: Ctx) -> None:
     ctx.rule('R08.1', 'every table any get_deformation can return is a permutation of X,Y,Z of the advertised family', floor=14)
     ctx.rule('R08.2', 'Hadamard exactly on qubits along the chosen axis; invalid axes rejected', floor=30)
     ctx.rule('R08.3', 'deform rewrites stabilizers and both logical families identically with one name/kwargs', floor=2)
-    ctx.rule('R08.4', 'a deformation is always applied to the undeformed operators', floor=1)
+    ctx.rule('R08.4', 'a deformation is always applied to the undeformed operators; the last request decides', floor=4)
     ctx.rule('R08.5', 'deform resets every lazily cached attribute; no subclass hides a cache from it', floor=28)
     ctx.rule('R08.6', 'noise-side deformation: p_new[P] = p_old[D(P)] with the code\'s table, snapshot reads; cache keyed by full state', floor=5)
     ctx.rule('R08.7', 'advertised deformation names = accepted names', floor=29)
